@@ -58,7 +58,7 @@ ASSUMPTIONS = [
 RULE = ("seeded generator (VERIF_SEED): keys {1,2,n-2,n-3, random, d/X/Y with 1-3 leading zero bytes}; message lengths {0,1,31..33,55,56,63..65,119..129,1000,4096,65535,65536}; "
         "IDs {nil, default, 1, 16, 8191, 8192, 8193 bytes and a seeded spread: 2..15, 17..64, powers of two +-1 up to 4097, 8188..8190, 65..8125}; message lengths additionally 4097 and two seeded values in 4098..65534; nonce streams {random, all-zero, all-ff, k=n-1, short}; for every valid base tuple the rejection catalogue: "
         "bit flips of message/ID/r/s/X/Y, r,s in {0,n,n+r,-r,2^256,...}, r+s=n, other keys, hash variants, DER variants {non-minimal, negative, long-form, indefinite, trailing, "
-        "wrong tags, SET, three integers, empty, truncations, byte changes}; the full DER catalogue on four eligible bases rotating with the seed (thorough: all); public keys off the curve must be rejected (predicate: false); consumer leg (op W): every P case through two of the three consumers, rotating (thorough: all three): gmtls verifyHandshakeSignature (SM2 and ECDSA-on-SM2 branches) and x509 CheckSignature; history leg (op Y): Sign / Verify / Sm3Digest sequences in which one ID buffer, one message buffer and (mode 1) one key object are reused and overwritten in place between the calls, incl. evict-and-return patterns over two keys; each call judged against the standard for the bytes at call time; concurrent leg (op C): 2 / 8 / 32 goroutines released together, each signing 8 / 8 / 4 messages on its own yielding reader, every signature compared with the pair its own stream prescribes and all r required to be pairwise distinct. A case is non-trivial unless both message and id are empty; distinct = distinct case text")
+        "wrong tags, SET, three integers, empty, truncations, byte changes}; the full DER catalogue on four eligible bases rotating with the seed (thorough: all); public keys off the curve must be rejected (predicate: false); consumer leg (op W): every P case through two of the three consumers, rotating (thorough: all three): gmtls verifyHandshakeSignature (SM2 and ECDSA-on-SM2 branches) and x509 CheckSignature; crafted digest-level tuples (H) with special relations between the summands of [s]G + [t]P ([s]G = [t]P: doubling, [s]G = -[t]P: infinity, s or t in {1,2,n-2,n-1}) and sparse s, t, d, k (2^e, 2^e +- 1, 3*2^e); every residue mod 64 of |M| and |ID| in the S and D legs; history leg (op Y): Sign / Verify / Sm3Digest sequences in which one ID buffer, one message buffer and (mode 1) one key object are reused and overwritten in place between the calls, incl. evict-and-return patterns over two keys; each call judged against the standard for the bytes at call time; concurrent leg (op C): 2 / 8 / 32 goroutines released together, each signing 8 / 8 / 4 messages on its own yielding reader, every signature compared with the pair its own stream prescribes and all r required to be pairwise distinct. A case is non-trivial unless both message and id are empty; distinct = distinct case text")
 
 
 def nontrivial(f):
@@ -94,7 +94,8 @@ def _expect_verify(pub, e, r, s):
         return False
     pt = o.ec_add(o.ec_mul(s, o.G), o.ec_mul((r + s) % o.N, pub))
     if pt is None:
-        return None
+        # [s]G + [t]P = O: no x1 exists, the standard cannot accept; /repo uses x = 0, so only e = r (mod n) is left open
+        return False if e % o.N != r else None
     return (e + pt[0]) % o.N == r
 
 
